@@ -85,8 +85,17 @@ macro_rules! with_field {
     };
 }
 
+/// Non-canonical decompositions (honest output not unique)?
+fn noncanonical(prog: &Prog) -> bool {
+    matches!(prog.term, Term::ToBits(_, _, false) | Term::ToChunks(..))
+}
+
 fn complete<Fd: EmField>(prog: &Prog, x: &[BigUint], seed: u64) -> CaseResult {
     let op = FOp::<Fd>::new(prog.clone());
+    if noncanonical(prog) {
+        // the library's own output (read back) must be accepted and judged correct
+        return xcheck_complete_readback(&op, x);
+    }
     if Fd::VIA_STD {
         check_complete_and_s1(&op, x, seed)
     } else {
@@ -99,6 +108,10 @@ fn s2<Fd: EmField>(prog: &Prog, x: &[BigUint], seed: u64, n_faults: usize, exhau
     let op = FOp::<Fd>::new(prog.clone());
     let md = model::<Fd>();
     let mut st = XStats::default();
+    if noncanonical(prog) {
+        let (s, _) = xcheck_s2_readback(&op, x, seed, n_faults + n_faults / 2, md.lb, &md.m)?;
+        return Ok((s, vec![]));
+    }
     if Fd::VIA_STD {
         let (s, _) = check_s2(&op, x, seed, n_faults, exhaustive, true)?;
         st.add(&XStats { runs: s.runs, accepted_correct: s.accepted_correct, rejected: s.rejected, aborted: s.aborted, no_effect: s.no_effect });
